@@ -48,7 +48,16 @@ def _get_uses_of(node: ast.AST, scope: ast.AST, source: str) -> Iterable[ast.Nam
             continue
         if any(core.walk(funcdef.args, ast.arg(arg=name))):
             blacklisted_names.update(core.walk(funcdef, ast.Name))
-        if any(core.walk(funcdef, ast.Name(ctx=(ast.Store, ast.Del), id=name))):
+        inner_scope_names = {
+            child
+            for inner in core.walk(funcdef, (ast.FunctionDef, ast.AsyncFunctionDef, ast.ClassDef))
+            if inner is not funcdef
+            for child in core.walk(inner, ast.Name)
+        }
+        if any(
+            child not in inner_scope_names
+            for child in core.walk(funcdef, ast.Name(ctx=(ast.Store, ast.Del), id=name))
+        ):
             # The function has a local variable of that name
             blacklisted_names.update(core.walk(funcdef, ast.Name(id=name)))
 
